@@ -31,6 +31,7 @@ func init() {
 		// a READ that takes block 0 for the block of a hole returns the log header as file data
 		ruleNullSource(c, "C12.Z15")
 		ruleReadClamp(c, "C12.Z16")
+		ruleMapFromPointers(c, "C12.Z17")
 		ruleL2f(c, "C12.Z13", func(e string) bool { return strings.HasSuffix(e, "NFSPROC3_READ") }, 2)
 	}
 }
@@ -1430,4 +1431,83 @@ func ruleReadClamp(c *Ctx, id string) {
 		return
 	}
 	R.Check(found, id, "inode.Read|count clamped to the file's size", P.Pos(rd.Pos()), "one of the values the loop bound can take is Size - offset", "clamp found", "the loop covers the requested count whatever the file's size: a READ over the end maps - and for holes allocates and links - blocks behind the size, which nothing ever frees, and returns bytes that are not part of the file")
+}
+
+// ruleMapFromPointers: the block map answers from the block pointers.  Every
+// block number bmap / indbmap hand back is, on every path, a pointer slot of
+// the inode, an entry of an index block, what the allocator just gave, or the
+// answer of the level below - never a number remembered elsewhere in the
+// in-memory inode.  A remembered mapping that a truncation does not forget
+// names a block that is free, or belongs to another file by now: a hole of the
+// file grown again reads the other file's bytes.
+func ruleMapFromPointers(c *Ctx, id string) {
+	V, P, R := c.V, c.P, c.R
+	R.Rule(id, "the block map answers from the block pointers: every block number bmap and indbmap return derives (through phis) from Inode.blks[i], an index-block entry (BnumGet), AllocBlock, indbmap's own answer, a parameter or the constant 0 - not from any other field of the inode", 2)
+	for _, f := range []*ssa.Function{V.bmap, V.indbmap} {
+		if f == nil {
+			continue
+		}
+		R.Analysed[FuncName(f)] = true
+		nres := f.Signature.Results().Len()
+		for idx := 0; idx < nres; idx++ {
+			if b, isB := f.Signature.Results().At(idx).Type().Underlying().(*types.Basic); !isB || b.Info()&types.IsInteger == 0 {
+				continue
+			}
+			ok, why, n := true, "", 0
+			seen := map[ssa.Value]bool{}
+			var leaf func(v ssa.Value)
+			leaf = func(v ssa.Value) {
+				v = stripConv(v)
+				if seen[v] {
+					return
+				}
+				seen[v] = true
+				n++
+				switch x := v.(type) {
+				case *ssa.Phi:
+					for _, e := range x.Edges {
+						leaf(e)
+					}
+					return
+				case *ssa.Const, *ssa.Parameter:
+					return
+				case *ssa.Extract:
+					if cl, isC := x.Tuple.(*ssa.Call); isC {
+						if g := staticCallee(cl); g != nil && (g == V.indbmap || g == V.bmap) {
+							return
+						}
+					}
+				case *ssa.Call:
+					if g := staticCallee(x); g != nil && (g == V.AllocBlock || g.Name() == "BnumGet") {
+						return
+					}
+				case *ssa.UnOp:
+					if x.Op == token.MUL {
+						if ia, isI := x.X.(*ssa.IndexAddr); isI {
+							if nm, fl, _ := fieldLoad(ia.X); nm == V.Inode && fl == "blks" {
+								return
+							}
+						}
+						if al, isA := x.X.(*ssa.Alloc); isA {
+							for _, r := range refs(al) {
+								if st, isS := r.(*ssa.Store); isS && st.Addr == ssa.Value(al) {
+									leaf(st.Val)
+								}
+							}
+							return
+						}
+						if nm, fl, _, _ := loadedField(x); nm != nil {
+							ok, why = false, "field "+nm.Obj().Name()+"."+fl
+							return
+						}
+					}
+				}
+				ok, why = false, symOf(f, v)
+			}
+			for _, rs := range returnSources(f, idx) {
+				leaf(rs.Val)
+			}
+			R.Check(ok && n > 0, id, fmt.Sprintf("%s|result %d comes from the pointers", FuncName(f), idx), P.Pos(f.Pos()), "the block number returned is a pointer slot, an index entry, a fresh allocation or the lower level's answer", fmt.Sprintf("%d sources", n), "a block number comes from "+why+": a mapping kept outside the pointers survives a truncation - the file grown again reads (or writes) a block that is free or belongs to another file")
+		}
+	}
 }
